@@ -195,29 +195,64 @@ fn parse_pattern_nosubst<L: Language>(
                 break;
             };
 
+            // a bare identifier is either a child term (like `5` for a `Number(u32)` variant),
+            // or a payload of this very node (like `5` in `(const 5)` for `Const(u32) = "const"`).
+            let is_bare_ident = !matches!(tok.get(1), Some(Token::LBracket));
+            if let (Some(Token::Ident(s)), true) = (tok.get(0), is_bare_ident) {
+                let child = parse_pattern::<L>(&tok[..1]).ok().map(|(pat, _)| pat);
+                syntax_elems.push(NestedSyntaxElem::Ident(s.to_string(), child));
+                tok = &tok[1..];
+                continue;
+            }
+
             let (se, tok2) = parse_nested_syntax_elem(tok)?;
             tok = tok2;
             syntax_elems.push(se);
         }
         tok = &tok[1..];
 
-        let syntax_elems_mock: Vec<_> = syntax_elems
+        // Each bare identifier that has a reading as a child term can also be a payload.
+        // We prefer child terms: `choice` is a bit mask over these identifiers, where a set bit means "payload".
+        let ambiguous = syntax_elems
             .iter()
-            .map(|x| match x {
-                NestedSyntaxElem::String(s) => SyntaxElem::String(s.clone()),
-                NestedSyntaxElem::Slot(s) => SyntaxElem::Slot(*s),
-                NestedSyntaxElem::Pattern(_) => SyntaxElem::AppliedId(AppliedId::null()),
+            .filter(|x| matches!(x, NestedSyntaxElem::Ident(_, Some(_))))
+            .count()
+            .min(16);
+        let mock = |choice: usize| -> Vec<SyntaxElem> {
+            let mut i = 0;
+            syntax_elems
+                .iter()
+                .map(|x| match x {
+                    NestedSyntaxElem::String(s) => SyntaxElem::String(s.clone()),
+                    NestedSyntaxElem::Slot(s) => SyntaxElem::Slot(*s),
+                    NestedSyntaxElem::Pattern(_) => SyntaxElem::AppliedId(AppliedId::null()),
+                    NestedSyntaxElem::Ident(s, Some(_)) => {
+                        i += 1;
+                        if i <= 16 && choice & (1 << (i - 1)) == 0 {
+                            SyntaxElem::AppliedId(AppliedId::null())
+                        } else {
+                            SyntaxElem::String(s.clone())
+                        }
+                    }
+                    NestedSyntaxElem::Ident(s, None) => SyntaxElem::String(s.clone()),
+                })
+                .collect()
+        };
+        let (node, mock) = (0..(1 << ambiguous))
+            .map(|choice| mock(choice))
+            .find_map(|mock| {
+                L::from_syntax(&mock)
+                    .filter(|node| node.to_syntax().len() == mock.len())
+                    .map(|node| (node, mock))
             })
-            .collect();
-        let node = L::from_syntax(&syntax_elems_mock)
-            .filter(|node: &L| node.to_syntax().len() == syntax_elems_mock.len())
-            .ok_or_else(|| ParseError::FromSyntaxFailed(syntax_elems_mock))?;
+            .ok_or_else(|| ParseError::FromSyntaxFailed(mock(0)))?;
         let syntax_elems = syntax_elems
             .into_iter()
-            .filter_map(|x| match x {
-                NestedSyntaxElem::Pattern(pat) => Some(pat),
-                NestedSyntaxElem::String(_) => None,
-                NestedSyntaxElem::Slot(_) => None,
+            .zip(mock.into_iter())
+            .filter_map(|(x, m)| match (x, m) {
+                (NestedSyntaxElem::Pattern(pat), _) => Some(pat),
+                (NestedSyntaxElem::Ident(_, child), SyntaxElem::AppliedId(_)) => child,
+                _ => None,
             })
             .collect();
         let re = Pattern::ENode(node, syntax_elems);
@@ -241,6 +276,8 @@ enum NestedSyntaxElem<L: Language> {
     Pattern(Pattern<L>),
     Slot(Slot),
     String(String),
+    // a bare identifier, together with its reading as a child term (if it has one).
+    Ident(String, Option<Pattern<L>>),
 }
 
 fn parse_nested_syntax_elem<L: Language>(
